@@ -26,11 +26,11 @@ def run(ctx):
     ctx.rule("R10.o", "asynchronous results are collected in input order, not in completion order: no function of param collects awaited results through asyncio.as_completed / asyncio.wait (rx.map over a coroutine returns its results in the order of the input whatever order the awaitables finish in)", floor=1)
     ctx.rule("R10.t", "trigger model: Parameters.trigger interpreted abstractly, also on an instance whose only reference is a dependency-free asynchronous one (refs / async_refs entries, no "
                       "source watchers): the re-announcing write-back runs inside a _syncing scope naming the triggered parameters, so it is not taken for an override that cancels the pending evaluation", floor=1)
-    ctx.rule("R10.x", "executor order: param._utils.async_executor interpreted with a running loop for three back-to-back calls, then the callbacks it handed to the loop: every call becomes a "
+    ctx.rule("R10.q", "executor order: param._utils.async_executor interpreted with a running loop for three back-to-back calls, then the callbacks it handed to the loop: every call becomes a "
                       "task exactly once and the tasks are created in call order (supersession assumes that what was scheduled later starts later)", floor=1)
     ctx.rule("R10.v", "rx value-setter model: `x.rx.value = v` assigns to the root's wrapper in every case -- also when v resolves to the very object the root holds: for a root driven by a "
                       "coroutine / async generator that assignment is what ends the reference and cancels the pending evaluation (shared with R09.v)", floor=1)
-    ctx.rule("R10.l", "relink model: Parameter._relink interpreted with the parameter currently linked to an object whose `==` is always truthy (a reactive expression) / to a plain reference, and "
+    ctx.rule("R10.p", "relink model: Parameter._relink interpreted with the parameter currently linked to an object whose `==` is always truthy (a reactive expression) / to a plain reference, and "
                       "the new reference None / another reference / the same one: Parameters._update_ref(name, ref) is called exactly once in every case (it is what cancels what is pending)", floor=1)
     ctx.rule("R10.s", "sync model, asynchronous link: Parameters._sync_refs interpreted with a parameter that follows a coroutine function bound to S.a, an event for S.a arriving at an ordinary "
                       "moment / while the link's own previous result is being delivered / while another parameter is synced: exactly one new evaluation is scheduled, for the inputs as they are now", floor=1)
@@ -293,9 +293,9 @@ def run(ctx):
     trigger_model.report(ctx, "C10", "R10.t")
     rx_model.value_setter_model(ctx, "R10.v")
     from checks import link_model
-    link_model.relink_model(ctx, "R10.l")
+    link_model.relink_model(ctx, "R10.p")
     from checks import async_model
-    async_model.executor_order_model(ctx, "R10.x")
+    async_model.executor_order_model(ctx, "R10.q")
     from checks import setter_model
     setter_model.report(ctx, "C10", "R10.m")
     from checks import cm_model
